@@ -343,6 +343,28 @@ func (s *System) findMailbox(ref *Ref) vivid.Mailbox {
 			return v
 		}
 	}
-	// 若上述皆未命中，返回系统根 Actor 的 Mailbox 作为默认兜底方案，保证 Mailbox 一定可用。
-	return s.Mailbox()
+	// 根 Actor 自身不在 actorContexts 中注册，发往根路径的消息仍由根 Actor 的邮箱处理。
+	if ref.GetPath() == s.Ref().GetPath() {
+		return s.Mailbox()
+	}
+	// 其余未命中的本地路径（目标不存在或已终止）进入死信，而不是交给根 Actor 静默吞掉（甚至终止根 Actor）。
+	return &deadLetterMailbox{system: s}
 }
+
+// deadLetterMailbox 是未注册本地路径的兜底邮箱：投递到该邮箱的任何消息都会直接作为死信发布。
+type deadLetterMailbox struct {
+	system *System
+}
+
+func (m *deadLetterMailbox) Enqueue(envelop vivid.Envelop) {
+	m.system.TellSelf(ves.DeathLetterEvent{
+		Envelope: envelop,
+		Time:     time.Now(),
+	})
+}
+
+func (m *deadLetterMailbox) Pause() {}
+
+func (m *deadLetterMailbox) Resume() {}
+
+func (m *deadLetterMailbox) IsPaused() bool { return false }
